@@ -155,6 +155,12 @@ func C20(c *core.Ctx) {
 				gt = fmt.Sprintf("gave up after %v, later than timeout %v + one retry delay %v + one attempt", res.elapsed, cs.timeout, cs.max)
 			}
 		}
+		if gt == "" && res.err != nil && calls > 0 && len(sg.ends) == calls {
+			// the wait that the deadline cut short is a wait too
+			if last := res.elapsed - sg.ends[calls-1]; last > maxDur(cs.max, 0)+tol {
+				gt = fmt.Sprintf("the last wait lasted %v, longer than the maximum retry delay %v", last, cs.max)
+			}
+		}
 		if gt == "" {
 			for k, gp := range gaps {
 				if gp > maxDur(cs.max, 0)+tol {
